@@ -339,6 +339,62 @@ def run(prog, rep, tier, repo):
                 rep.undecided('self-call-identity', key, 'no witness satisfies the conditions of the branch %s' % show(v)[:60], site_of(f.body), proof=False)
     rep.floor('self-call-identity', 1, 'reflection branch of gamma')
 
+    # ---- loop-free branches against the stated accuracy.  A return site whose expression is a closed form over the argument (no loop-carried
+    # value) is evaluated in IEEE arithmetic at exact witnesses of its own conditions, inner calls of the special functions read as the true
+    # functions, and compared with the true value; an error above a multiple of the stated figure (10x for the relative 1e-13 / 1e-10 of
+    # gamma / digamma, 2x for the absolute 1.5e-7 of erf -- far above what the evaluation itself can contribute) is a violation with its
+    # witness.  Branches that sum a series in a loop (the Lanczos sums) are not evaluated: their accuracy is NOT decided.
+    def true_digamma(x):
+        acc = 0.0
+        while x < 20.0:
+            acc -= 1.0 / x
+            x += 1.0
+        x2 = 1.0 / (x * x)
+        return acc + math.log(x) - 0.5 / x - x2 * (1.0 / 12 - x2 * (1.0 / 120 - x2 * (1.0 / 252 - x2 * (1.0 / 240 - x2 * (1.0 / 132)))))
+    FS_ = 'functions::statistical::'
+    truth2 = dict(truth)
+    truth2[FG + 'digamma'] = true_digamma
+    truth2[FS_ + 'erf'] = math.erf
+    specs = [
+        (FG + 'gamma', tg, (0.7, 1.5, 3.3, 7.25, 10.1, 30.7, 50.0, 60.5, 100.2, 120.25, 150.9, 170.3, -0.5, -2.3), lambda got, want: abs(got - want) / abs(want), 1e-12, 'relative error', '1e-13'),
+        (FG + 'digamma', true_digamma, (0.001, 0.3, 1.0, 2.5, 5.9, 6.0, 7.5, 12.0, 50.0, 1e3, 1e6), lambda got, want: abs(got - want) / max(1.0, abs(want)), 1e-9, 'error relative to max(1, |psi|)', '1e-10'),
+        (FS_ + 'erf', math.erf, (0.0, 1e-4, 0.001, 0.005, 0.0099, 0.05, 0.3, 0.9, 1.7, 2.9, 4.5, 6.0, 40.0, -0.0099, -0.7, -3.1), lambda got, want: abs(got - want), 3e-7, 'absolute error', '1.5e-7'),
+    ]
+    for fk, true_fn, zs, errf, limit, what, stated in specs:
+        f = prog.func(fk)
+        if f is None:
+            continue
+        rep.touch(fk)
+        for si, (v, bb, gs) in enumerate(_sites(f)):
+            key = 'branch-accuracy:%s:site%d' % (short(fk), si)
+            worst, used, uneval = None, 0, None
+            for zv in zs:
+                env = {('arg', 1, None): zv, '__fn__': truth2}
+                ctx = Frame(f, env=env)
+                if any(guard_value(canon_guard(c_, v_), ctx) is not True for c_, v_ in gs if tag(c_) != 'discr'):
+                    continue
+                try:
+                    got = tev(v, ctx)
+                except Uneval as ex:
+                    uneval = str(ex)
+                    continue
+                want = true_fn(zv)
+                if not isinstance(got, float) or want != want or math.isinf(want) or want == 0.0 and errf is specs[0][3]:
+                    continue
+                used += 1
+                e_ = errf(got, want) if got == got else float('inf')
+                if worst is None or e_ > worst[0]:
+                    worst = (e_, zv, got, want)
+            if worst is not None and worst[0] > limit:
+                rep.viol('branch-accuracy', key, '%s(%r) takes the branch %s = %.17g; the true value is %.17g: %s %.3g, the property allows %s' % (
+                    short(fk), worst[1], show(v)[:70], worst[2], worst[3], what, worst[0], stated), site_of(f.body))
+            elif used:
+                rep.ok('branch-accuracy', key, 'closed-form branch within %s %.1e of the true function at %d witnesses (worst %.2e)' % (what, limit, used, worst[0]))
+            else:
+                rep.undecided('branch-accuracy', key, 'branch %s not evaluated (%s): its accuracy is not decided' % (show(v)[:50], uneval or 'no witness meets its conditions'),
+                              site_of(f.body), proof=False)
+    rep.floor('branch-accuracy', 6, 'return sites of gamma, digamma, erf')
+
     key = 'lanczos-form'
     if 'gamma' not in forms:
         rep.undecided('lanczos-form', key, 'main branch of gamma not read as one return site', proof=False)
